@@ -46,7 +46,7 @@ func uhs(s string) string { return string(unhex(s)) }
 
 // hostile material
 func hostileString(rng *gen.RNG) string {
-	switch rng.Intn(14) {
+	switch rng.Intn(15) {
 	case 0:
 		return ""
 	case 1:
@@ -76,9 +76,31 @@ func hostileString(rng *gen.RNG) string {
 		return gen.URLString(rng, true)
 	case 12:
 		return strings.Repeat(gen.Pick(rng, []string{"=", "-", ":", "S", "T", "Q", "0"}), rng.Intn(3000))
+	case 13:
+		return gen.CaseOddString(rng)
 	default:
 		return fmt.Sprint(rng.U64())
 	}
+}
+
+// relatedStrings: three string arguments of one call, the later ones often derived from the first (same text in
+// another letter case, the first as "prefix:" of the second, ...) instead of being independent.
+func relatedStrings(rng *gen.RNG) []string {
+	a := hostileString(rng)
+	if rng.Intn(3) == 0 {
+		a = gen.CaseOddString(rng)
+	}
+	if len(a) > 4096 {
+		a = a[:4096]
+	}
+	b, d := hostileString(rng), hostileString(rng)
+	if rng.Intn(3) != 0 {
+		b = gen.Related(rng, a, strings.ToLower, strings.ToUpper)
+	}
+	if rng.Intn(4) == 0 {
+		d = gen.Related(rng, gen.Pick(rng, []string{a, b}), strings.ToLower, strings.ToUpper)
+	}
+	return []string{hs(a), hs(b), hs(d)}
 }
 
 func hostileBytes(rng *gen.RNG) []byte {
@@ -296,14 +318,22 @@ func drivers() []driver {
 			otp.ParseOTPAuthURL(&url.URL{Scheme: "otpauth", Host: "hotp", Opaque: uhs(a.S[0])})
 		}},
 		{"GenerateTOTPURL", func(rng *gen.RNG) c10Args {
-			return c10Args{S: []string{hs(hostileString(rng)), hs(hostileString(rng)), hs(hostileString(rng))}, U: []uint64{uint64(rng.Intn(256)), uint64(rng.Intn(256)), rng.U64() >> uint(rng.Intn(64))}}
+			ss := []string{hs(hostileString(rng)), hs(hostileString(rng)), hs(hostileString(rng))}
+			if rng.Bool() {
+				ss = relatedStrings(rng)
+			}
+			return c10Args{S: ss, U: []uint64{uint64(rng.Intn(256)), uint64(rng.Intn(256)), rng.U64() >> uint(rng.Intn(64))}}
 		}, func(a c10Args) {
 			if u, err := otp.GenerateTOTPURL(otp.URLParam{Issuer: uhs(a.S[0]), AccountName: uhs(a.S[1]), Secret: uhs(a.S[2]), Digits: otp.Digits(a.U[0]), Algorithm: otp.Algorithm(a.U[1]), Period: uint(a.U[2])}); err == nil && u != nil {
 				_ = u.String()
 			}
 		}},
 		{"GenerateHOTPURL", func(rng *gen.RNG) c10Args {
-			return c10Args{S: []string{hs(hostileString(rng)), hs(hostileString(rng)), hs(hostileString(rng))}, U: []uint64{uint64(rng.Intn(256)), uint64(rng.Intn(256)), rng.U64() >> uint(rng.Intn(64))}}
+			ss := []string{hs(hostileString(rng)), hs(hostileString(rng)), hs(hostileString(rng))}
+			if rng.Bool() {
+				ss = relatedStrings(rng)
+			}
+			return c10Args{S: ss, U: []uint64{uint64(rng.Intn(256)), uint64(rng.Intn(256)), rng.U64() >> uint(rng.Intn(64))}}
 		}, func(a c10Args) {
 			if u, err := otp.GenerateHOTPURL(otp.URLParam{Issuer: uhs(a.S[0]), AccountName: uhs(a.S[1]), Secret: uhs(a.S[2]), Digits: otp.Digits(a.U[0]), Algorithm: otp.Algorithm(a.U[1]), Period: uint(a.U[2])}); err == nil && u != nil {
 				_ = u.String()
